@@ -2,6 +2,7 @@ package interp
 
 import (
 	"fmt"
+	"os"
 	"go/token"
 	"go/types"
 	"strings"
@@ -121,6 +122,11 @@ func NewInterp(p *Program, cfg *Config, id int) *Interp {
 		toSched: make(chan schedEvent), specials: map[string]Value{}, errObjs: map[string]Iface{},
 	}
 	in.S = solver.New(m, cfg.SolverTimeoutMs)
+	if qlog := os.Getenv("SYMGO_QLOG"); qlog != "" {
+		if f, err := os.OpenFile(fmt.Sprintf("%s.%d", qlog, id), os.O_CREATE|os.O_WRONLY|os.O_APPEND, 0o644); err == nil {
+			in.S.LogFile = f
+		}
+	}
 	in.cov = newCoverage()
 	in.path = &Path{}
 	return in
